@@ -26,13 +26,14 @@ def base(d):
     return d
 
 
-def run(prog, pred=None, floor=None):
-    reviewed = arith.load_table("index_reviewed.json")
-    obs = []
+def _records(prog):
+    """every BoundsCheck site of hand-written product code: (fn, block, terminator, key, L, I, arr)"""
+    if getattr(prog, "_index_records", None) is not None:
+        return prog._index_records
+    out = []
     counts = {}
-    n = 0
     for f in sorted(prog.fns.values(), key=lambda f: (f.file, f.line, f.path)):
-        if not arith.in_scope(f) or (pred is not None and not pred(f)):
+        if not arith.in_scope(f):
             continue
         if arith.generated(f.exp) or "#[builtin]" in f.exp:
             continue
@@ -41,7 +42,6 @@ def run(prog, pred=None, floor=None):
                 continue
             if arith.generated(t["exp"]) or "#[builtin]" in t["exp"]:
                 continue
-            n += 1
             raw_len = t["ops"][0]
             L = strip(f.desc_op(raw_len))
             I = strip(f.desc_op(t["ops"][1]))
@@ -50,12 +50,31 @@ def run(prog, pred=None, floor=None):
             basekey = "%s:[%s;%s]" % (f.path, arith.norm_shape(arr) if arr else arith.norm_shape(L), arith.norm_shape(I))
             counts[basekey] = counts.get(basekey, 0) + 1
             key = basekey if counts[basekey] == 1 else "%s#%d" % (basekey, counts[basekey])
-            st = site(f, t["line"])
-            why = discharge(f, b, L, I, arr)
-            if why:
-                obs.append(ok(RULE, key, st, why))
-            elif key in reviewed:
-                obs.append(ok(RULE, key, st, "reviewed: " + reviewed[key]["reason"]))
+            out.append((f, b, t, key, L, I, arr))
+    prog._index_records = out
+    return out
+
+
+def run(prog, pred=None, floor=None):
+    reviewed = arith.load_table("index_reviewed.json")
+    obs = []
+    n = 0
+    recs = _records(prog)
+    moved = arith.MovedSites(reviewed, {r[3] for r in recs})
+    for f, b, t, key, L, I, arr in recs:
+        if pred is not None and not pred(f):
+            continue
+        n += 1
+        st = site(f, t["line"])
+        why = discharge(f, b, L, I, arr)
+        if why:
+            obs.append(ok(RULE, key, st, why))
+        elif key in reviewed:
+            obs.append(ok(RULE, key, st, "reviewed: " + reviewed[key]["reason"]))
+        else:
+            mv = moved.take(key)
+            if mv:
+                obs.append(ok(RULE, key, st, "reviewed (site moved within its module): " + mv["reason"]))
             else:
                 obs.append(bad(RULE, key, st, "index `%s` into `%s` is not dominated by a bound check (no guard, idiom or reviewed entry)"
                                % (show(I), show(arr) if arr else show(L))))
